@@ -804,15 +804,17 @@ impl super::MainState {
             for ku in &kicked {
                 state.remove_user_from_channel(channel, ku);
             }
-            let chanobj = state.channels.get(channel).unwrap();
             for ku in &kicked {
                 let kick_msg = format!("KICK {} {} :{}", channel, ku, comment.unwrap_or("Kicked"));
-                for nick in chanobj.users.keys() {
-                    state
-                        .users
-                        .get(nick)
-                        .unwrap()
-                        .send_msg_display(&conn_state.user_state.source, kick_msg.clone())?;
+                // the channel can be absent: nothing was kicked or it was removed with its last user
+                if let Some(chanobj) = state.channels.get(channel) {
+                    for nick in chanobj.users.keys() {
+                        state
+                            .users
+                            .get(nick)
+                            .unwrap()
+                            .send_msg_display(&conn_state.user_state.source, kick_msg.clone())?;
+                    }
                 }
                 // and send to kicked user
                 state
